@@ -226,6 +226,16 @@ def naNameWS (pf : PFromBody) (i : Nat) : PFromBody :=
   else if pf.state == .possibleParamName then { pf with state := .possibleParamNameEnd, pend := i }
   else pf
 
+/-- first character of a parameter name: `fbNewParam -> fbParamName` (and the "possible" twin) -/
+def naParamStart (pf : PFromBody) (i : Nat) : PFromBody :=
+  if pf.state == .newParam then { pf with state := .paramName, pstart := i }
+  else if pf.state == .newPossibleParam then { pf with state := .possibleParamName, pstart := i }
+  else pf
+
+/-- `if pfrom.Params.Offs == 0 { pfrom.Params.Offs = OffsT(i) }` -/
+def naParamsOffs (pf : PFromBody) (i : Nat) : PFromBody :=
+  if pf.params.offs == 0 then { pf with params := { pf.params with offs := trunc16 i } } else pf
+
 /-- `case fbNewParam, fbNewPossibleParam, fbParamName, fbPossibleParamName:` -/
 def naStepP (h : Nat) (b : Buf) (i : Nat) (c : UInt8) (pf : PFromBody) : Step PFromBody :=
   if isLWSch c then
@@ -249,12 +259,7 @@ def naStepP (h : Nat) (b : Buf) (i : Nat) (c : UInt8) (pf : PFromBody) : Step PF
     else if pf.state == .possibleParamName then
       .cont (i + 1) (setFromParamVal b { pf with state := .newPossibleParam, pend := i })
     else .cont (i + 1) pf
-  else
-    let pf1 := if pf.state == .newParam then { pf with state := .paramName, pstart := i }
-               else if pf.state == .newPossibleParam then { pf with state := .possibleParamName, pstart := i }
-               else pf
-    if pf1.params.offs == 0 then .cont (i + 1) { pf1 with params := { pf1.params with offs := trunc16 i } }
-    else .cont (i + 1) pf1
+  else .cont (i + 1) (naParamsOffs (naParamStart pf i) i)
 
 /-- the new `case ','` of the `*NameEnd` / `*ValEnd` states: value ends before the whitespace -/
 def naCommaAfterWS (h : Nat) (b : Buf) (pf : PFromBody) (i e : Nat) : Step PFromBody :=
